@@ -67,7 +67,14 @@ class Env:
         self.ci = ci
         self.ctx = ctx
         self.lean = ctx.lean
-        self.data = t4_schemas.extract()
+        # a source the translator cannot read is reported by build_and_audit; the check then only
+        # searches for a failing input with the documentation as oracle (no model comparison)
+        try:
+            self.data = t4_schemas.extract()
+            self.degraded = False
+        except Exception:  # pylint: disable=broad-except
+            self.data = {"kinds": [], "input": None, "flags": {}}
+            self.degraded = True
         self.kinds = {k["kind"]: k for k in self.data["kinds"]}
         self.registry = [self.kind_wire(k) for k in self.kinds]
         self.doc = {}  # (kind, method) -> {param: default descriptor}
@@ -78,6 +85,8 @@ class Env:
         self.files = None
 
     def kind_wire(self, kind):
+        if kind not in self.kinds:
+            return {"kind": kind, "methodKey": METHOD_KEY[kind], "unicodeBranch": True, "classes": []}
         k = self.kinds[kind]
         return {
             "kind": k["kind"],
@@ -196,7 +205,9 @@ def probe(env: Env, report, kind, cfg, label="probe", left=None, right=None):
     )
     mres = model["res"]
     # ---- correspondence
-    if status == "ok":
+    if env.degraded:
+        pass
+    elif status == "ok":
         if "ok" not in mres or mres["ok"] != impl["out"]:
             report.disagree("construct.result", case, impl, mres)
     else:
@@ -443,6 +454,27 @@ def random_pipeline(env: Env, rng, bands, p_bad=0.12):
     return out
 
 
+def doc_pipeline(env: Env, rng, bands):
+    """a random pipeline using the documentation table only (degraded mode)"""
+    out = {}
+    for n in decorate(rng, random_kinds(rng)):
+        kind = n.split(".")[0]
+        methods = [(m, ps) for (k, m), ps in env.doc.items() if k == kind]
+        if not methods:
+            out[n] = {METHOD_KEY[kind]: "sgm"}
+            continue
+        m, ps = rng.choice(methods)
+        cfg = {METHOD_KEY[kind]: m}
+        names = list(ps)
+        rng.shuffle(names)
+        for p in names[: rng.randrange(0, len(names) + 1)]:
+            cfg[p] = legalish(rng, m, p, 0.15)
+        if kind == "matching_cost" and len(bands) > 1:
+            cfg["band"] = rng.choice([b for b in bands if b is not None] or ["x"])
+        out[n] = cfg
+    return out
+
+
 def wire_state(env, machine):
     return env.ci.machine_state_wire(machine)
 
@@ -465,7 +497,9 @@ def check_pipeline(env: Env, report, machine, state, user, left, right, label, f
     )
     mres = model["res"]
     new_state = None
-    if status == "ok":
+    if env.degraded:
+        new_state = wire_state(env, machine) if status == "ok" else None
+    elif status == "ok":
         if "ok" not in mres or mres["ok"]["cfg"] != impl["out"]:
             report.disagree("pipeline.result", case, impl, mres)
         else:
@@ -486,6 +520,17 @@ def check_pipeline(env: Env, report, machine, state, user, left, right, label, f
         report.fail("user_dict_untouched", "pipeline_mutated", case, impl)
     else:
         report.hit("user_dict_untouched")
+    if fresh and isinstance(user, dict) and isinstance(user.get("pipeline"), dict):
+        # the other observation point: PandoraMachine.check_conf called directly on the user's dictionary
+        direct = ci.snapshot(user)
+        try:
+            ci.PandoraMachine().check_conf(direct, lmeta, rmeta)
+        except BaseException as exc:  # pylint: disable=broad-except
+            if isinstance(exc, (KeyboardInterrupt, SystemExit)):
+                raise
+        if not ci.same_value(direct, before):
+            report.fail("user_dict_untouched", "machine_check_conf_mutates", case, {"after": ci.to_wire(direct)},
+                        "PandoraMachine.check_conf changed the dictionary it was given")
     verdict = model["verdict"]
     if fresh:
         if verdict == "accept":
@@ -854,6 +899,9 @@ def run(ctx, report, status):
             "documented verdict == accept/reject, result specification, idempotence, user dictionary untouched. "
             "non-trivial = at least one step/parameter; distinct by canonical JSON of the case"
         )
+        if env.degraded:
+            report.notes.append("the translator could not read the source: no model comparison was made (see build_problems)")
+            return
         translator_cross_check(env, report, status)
         for name, case in core.load_corpus(PROP):
             replay_case(env, report, case.get("input", case))
@@ -879,18 +927,27 @@ def search(ctx, report, status):
                     return f
             return None
 
-        for kind, k in env.kinds.items():
+        # the documentation table (not the source) names the methods and parameters to probe
+        for (kind, method), params in env.doc.items():
             mk = METHOD_KEY[kind]
-            for c in k["classes"]:
-                for method in c["names"]:
-                    for p in [e[0] for e in c["schema"] if e[0] != mk]:
-                        for v in VALUES + BOUNDARY.get(p, []) + LEGAL.get(p, []):
-                            probe(env, sub, kind, {mk: method, p: copy.deepcopy(v)}, "search")
-                    probe(env, sub, kind, {mk: method}, "search")
-                    f = first_unknown()
-                    if f:
-                        return f
+            for p in params:
+                for v in VALUES + BOUNDARY.get(p, []) + LEGAL.get(p, []):
+                    probe(env, sub, kind, {mk: method, p: copy.deepcopy(v)}, "search")
+            probe(env, sub, kind, {mk: method}, "search")
+            f = first_unknown()
+            if f:
+                return f
         rng = ctx.rng
+        if env.degraded:
+            # pipelines built from the documentation table only
+            for _ in range(1500):
+                left, right = random_images(rng)
+                check_pipeline(env, sub, env.ci.PandoraMachine(), None, {"pipeline": doc_pipeline(env, rng, left["bands"])},
+                               left, right, "pipeline")
+                f = first_unknown()
+                if f:
+                    return f
+            return None
         for _ in range(3000):
             left, right = random_images(rng)
             check_pipeline(env, sub, env.ci.PandoraMachine(), None, {"pipeline": random_pipeline(env, rng, left["bands"])},
